@@ -52,7 +52,8 @@ def base_specs():
     b['Anchor'] = anchor()
     f = item_fields()
     f['name'] = _f('Char', max_length=20, unique=True)
-    f['count'] = _f('Integer', null=True, db_column='cnt_col')
+    f['count'] = _f('Integer', null=True, db_column='cnt_col', db_index=True)
+    f['memo'] = _f('Char', max_length=30, null=True, db_column='memo_col')
     f['tags'] = _f('ManyToMany', to='Anchor')
     f['owner'] = _f('OneToOne', to='Anchor', null=True)
     b['Item'] = {'fields': f, 'db_table': 'custom_item'}
@@ -82,6 +83,9 @@ def mutation_alphabet(spec):
     A.append({'op': 'change', 'model': 'Item', 'name': 'flag', 'attrs': {'db_index': True}})
     A.append({'op': 'change', 'model': 'Item', 'name': 'ref', 'attrs': {'null': False}, 'initial': 1})
     A.append({'op': 'change', 'model': 'Item', 'name': 'flag', 'attrs': {'null': True}})
+    A.append({'op': 'change', 'model': 'Item', 'name': 'ref', 'attrs': {'db_index': False}})
+    A.append({'op': 'change', 'model': 'Item', 'name': 'memo', 'attrs': {'max_length': 50}, 'initial': 'n/a'})
+    A.append({'op': 'change', 'model': 'Item', 'name': 'memo', 'attrs': {'null': False}, 'initial': ''})
     for fname in ('name', 'count', 'flag', 'ref'):
         A.append({'op': 'delete', 'model': 'Item', 'name': fname})
     A.append({'op': 'rename', 'model': 'Item', 'name': 'name', 'new': 'title'})
@@ -325,7 +329,9 @@ def analyse(args):
         rec['rebuilds'] = sum(1 for (s, _p) in stmts if s.startswith('CREATE TABLE "TEMP_TABLE"'))
         if prop == 'C02':
             try:
-                r = E.data_query(start_master, stmts, spec, muts)
+                D.reset_db('default')
+                D.create_tables(D.build_models(spec), 'default')
+                r = E.data_query(start_master, stmts, spec, muts, E.catalog('default'))
             except S.Unsupported as e:
                 rec['status'] = 'unsupported'
                 rec['detail'] = str(e)[:300]
@@ -339,6 +345,9 @@ def analyse(args):
                 rec['detail'] = r['detail']
                 rec['replay'] = rep
                 rec['status'] = 'violation' if rep['reproduced'] else 'encoding_mismatch'
+                if rec['status'] == 'violation':
+                    rec['diff_kinds'] = ['data']
+                    rec['signature'] = signature(rec)
             else:
                 rec['status'] = 'unknown'
         else:
